@@ -28,9 +28,12 @@ LEVEL_NOTE = ("Trusted: Coq kernel, Go harness + Python glue. Modelled, not veri
 THEOREMS = ["pair_atomic", "root_changes_by_one_op", "cws_sets_both", "oracle_model_obs", "crash_recovered_pair_atomic"]
 RULE = ("C20's histories biased to CommitWithWorkingSet on branch 10 / working set 20 with stale and fresh handles, other writers (commit, set-head, "
         "delete, working-set update, tag) mostly on branch 11 / 21 / tags; sequential 4-12 calls by 2-3 handles, concurrent batches of 2-4; "
-        "non-trivial = at least one CommitWithWorkingSet took effect")
+        "plus doltdb-level histories: DoltDB.CommitWithWorkingSet on heads with no working set yet (fresh repository's main, a branch whose head was "
+        "set by SetHeadToCommit) and with one, a commit hook reading the (head, working set) pairs from one store root at EVERY visible dataset "
+        "update; non-trivial = at least one CommitWithWorkingSet took effect")
 ASSUMPTIONS = c20.ASSUMPTIONS
-REQUIRED_TAGS = ["seq", "conc", "commitws-ok", "lock", "merge", "only-cws-pair", "mixed-writers", "retry-path", "conc-two-cws", "samples>1", "nbs"]
+REQUIRED_TAGS = ["seq", "conc", "commitws-ok", "lock", "merge", "only-cws-pair", "mixed-writers", "retry-path", "conc-two-cws", "samples>1", "nbs",
+                 "ddb-first-commit-no-ws", "ddb-commit-with-ws", "ddb-rawbranch"]
 
 NAMES = c20.NAMES
 
@@ -79,11 +82,56 @@ def gen_case(rng, conc, store):
     return {"conc": conc, "store": store, "nclients": n, "values": c20.NVALS, "commits": commits, "ws": ws, "m0": m0, "names": NAMES, "acts": acts}
 
 
+def gen_ddb_case(rng):
+    """doltdb-level: CommitWithWorkingSet on heads without a working set (fresh repository's main, a branch whose head was
+    set at the storage level) and on heads that have one; every visible dataset update is observed."""
+    acts = []
+    kind = rng.choice(["rawbranch", "branch", None])
+    if kind:
+        acts.append({"k": kind, "branch": 11})
+    for _ in range(rng.randint(1, 3)):
+        acts.append({"k": "cws", "branch": 11 if (kind and rng.random() < 0.5) else 10})
+    return {"ddb": True, "conc": True, "store": "ddb", "acts": acts}
+
+
+def coq_case_ddb(case, out):
+    o = out.get("obs")
+    if o is None or out.get("err") or out.get("panic"):
+        return ("({| i_world := {| w_parents := []; w_root := []; w_ws := [] |}; i_m0 := []; i_conc := true; i_acts := [] |}, "
+                "{| o_base := {| o_results := [ROther]; o_final := [(0, 0)] |}; o_roots := [] |})")
+    cws = [a for a in case["acts"] if a["k"] == "cws"]
+    par, acts = [], []
+    for i, (a, x) in enumerate(zip(cws, o["ops"])):
+        if x["res"] == "ok":
+            par.append("(%d, [%d])" % (x["new"], x["exp"]))
+        acts.append("AOp %d (OCommitWS %d %d %d %d %d %d false)" % (i, a["branch"], a["branch"] + 10, x["exp"], x["prev"], x["new"], x["newws"]))
+    inp = "{| i_world := {| w_parents := %s; w_root := []; w_ws := [] |}; i_m0 := %s; i_conc := true; i_acts := %s |}" % (
+        cq_list(par), c20.coq_refs(o["m0"]), cq_list(acts))
+    return "(%s, {| o_base := {| o_results := %s; o_final := %s |}; o_roots := %s |})" % (
+        inp, cq_list(c20.RES[x["res"]] for x in o["ops"]), c20.coq_refs(o["final"]), cq_list(c20.coq_refs(r) for r in (o.get("roots") or [])))
+
+
+def classify_ddb(case, out):
+    o = out.get("obs")
+    if o is None or out.get("err") or out.get("panic"):
+        return ["harness-error"]
+    t = ["ddb"]
+    for x in o["ops"]:
+        if x["res"] == "ok":
+            t.append("ddb-first-commit-no-ws" if x["prev"] == 0 else "ddb-commit-with-ws")
+        else:
+            t.append("ddb-fail")
+    if any(a["k"] == "rawbranch" for a in case["acts"]):
+        t.append("ddb-rawbranch")
+    return sorted(set(t))
+
+
 def gen_cases(rng, tier):
     nseq, nconc, nnbs = (170, 110, 10) if tier == "quick" else (5000, 3000, 300)
     cases = [gen_case(rng, False, "mem") for _ in range(nseq)]
     cases += [gen_case(rng, True, "mem") for _ in range(nconc)]
     cases += [c20.gen_nbs_case(rng, i % 2 == 1, gen_case) for i in range(nnbs)]
+    cases += [gen_ddb_case(rng) for _ in range(12 if tier == "quick" else 200)]
     if c20.known_open(ID):
         cases.append(c20.WITNESS)
     return cases
@@ -93,6 +141,8 @@ match_known = c20.match_known
 
 
 def coq_case(case, out):
+    if case.get("ddb"):
+        return coq_case_ddb(case, out)
     o = out.get("obs")
     base = c20.coq_case(case, out)          # "(input, obs20)"
     if o is None or out.get("err") or out.get("panic"):
@@ -105,6 +155,8 @@ def coq_case(case, out):
 
 
 def classify(case, out):
+    if case.get("ddb"):
+        return classify_ddb(case, out)
     t = [x for x in c20.classify(case, out) if x in ("seq", "conc", "commitws-ok", "lock", "merge", "retry-path", "stale-fail", "nbs", "ok", "harness-error", "other", "dirty")]
     o = out.get("obs")
     if not o or "harness-error" in t:
@@ -124,6 +176,8 @@ def nontrivial(case, out):
     o = out.get("obs")
     if not o:
         return False
+    if case.get("ddb"):
+        return any(x["res"] == "ok" for x in o["ops"])
     ops = [a for a in case["acts"] if a["k"] not in ("rebase", "get")]
     return any(a["k"] == "commitws" and x["res"] == "ok" for a, x in zip(ops, o["ops"]))
 
